@@ -668,7 +668,14 @@ class ConfigLoader(BaseConfig):
             inmc = [None] * self._Ngroup
         if bg is None:
             bg = [None] * self._Ngroup
-        model = self._get_model(vm=vm, name=name)
+        if all_data is None:
+            model = self._get_model(vm=vm, name=name)
+        else:
+            # fresh likelihood models: the cached-amplitude / cached-integral
+            # models key their caches by id() of the batches held by the FCN
+            # built here; a model shared with an earlier, already released FCN
+            # would serve that FCN's cache for a recycled id
+            model = self._get_model.__wrapped__(self, vm=vm, name=name)
         fcns = []
 
         # print(self.config["data"].get("using_mix_likelihood", False))
